@@ -63,6 +63,10 @@ let dispatch fn a =
   | "bic_parts" -> string_of_texts (x_bic_parts (x_clean (t 0)))
   | "re_bic" -> string_of_bool' (x_pat_apply (method_of_string a.(1)) (x_bic_pat (b 0)) (t 2))
   | "spec_bic_accept" -> string_of_bool' (s_iso9362_ok (b 1) (x_clean (t 0)))
+  | "spec_iban_verdict" ->
+    (match s_iban_verdict (t 0) with None -> "ACCEPT" | Some l -> "REJECT|" ^ String.concat "|" (List.map exn_name l))
+  | "spec_bic_verdict" ->
+    (match s_bic_verdict (b 1) (t 0) with None -> "ACCEPT" | Some l -> "REJECT|" ^ String.concat "|" (List.map exn_name l))
   | "spec_iso_ok" -> string_of_bool' (s_iso_ok (t 0))
   | "spec_check_digits" -> string_of_text (s_check_digits (t 0) (t 1))
   | "spec_conforms" -> string_of_bool' (s_conforms (t 0) (t 1))
